@@ -494,8 +494,9 @@ def write_evidence(pid, tier, seed, cfg, comps, violations, undecided, notes, wa
     ev = {"property_id": pid, "tier": tier, "seed": seed, "level": level, "coverage": cov,
           "assumptions": cfg.get("assumptions", []) + [f"{a['origin']}:{a['line']} {a['kind']}" for a in list(assumptions)[:0]],
           "wall_s": round(wall, 2), "violations": len(violations)}
-    os.makedirs(os.path.join(ROOT, "evidence"), exist_ok=True)
-    json.dump(ev, open(os.path.join(ROOT, "evidence", pid + ".json"), "w"), indent=1)
+    evdir = os.environ.get("VERIF_EVIDENCE_DIR") or os.path.join(ROOT, "evidence")
+    os.makedirs(evdir, exist_ok=True)
+    json.dump(ev, open(os.path.join(evdir, pid + ".json"), "w"), indent=1)
 
 
 def summarize_rewrites(rw):
